@@ -19,6 +19,7 @@ Lemma agree_fixed_spec_cfg c : t_barrier c = false -> t_iscfg c = true -> agree 
 Proof.
   intros Hbar Hk. unfold agree, spec_ok, agree_cfg, spec_cfg. rewrite Hbar, Hk.
   pose proof (outcome_fixed_all (t_c c)) as G. unfold good_out in G.
+  pose proof (kill_recorded (t_c c)) as K. rewrite <- (run_accepted jfixed (t_c c)) in K.
   rewrite (racy_fixed (t_c c)). cbn [orb].
   destruct (run_job jfixed (t_c c)) as [a al r t]. cbn [o_accepted o_alive o_result o_ticket] in *.
   intros H. apply andb_true_iff in H. destruct H as [Ho H]. rewrite Ho. cbn [andb].
@@ -31,7 +32,8 @@ Proof.
   apply Bool.eqb_prop in Hlive. rewrite <- Hlive.
   apply andb_true_iff in Hlast. destruct Hlast as [Hres Htk]. apply Bool.eqb_prop in Htk. rewrite <- Htk.
   apply Z.eqb_eq in Hres. apply Z.eqb_eq in Hst. rewrite <- Hst, <- Hres.
-  destruct r as [[]|]; [reflexivity..|discriminate].
+  rewrite orb_false_r in K.
+  destruct (must_kill (t_c c)); cbn [negb orb] in *; destruct r as [[]|]; try reflexivity; discriminate.
 Qed.
 
 Lemma agree_fixed_spec_raffle v c :
